@@ -250,15 +250,34 @@ theorem removeM_tr (hP : EntStable P) (env : Env) (p : Str) :
       refine tr_bind (k_setEntry (hP.rmChild _ _ _ _ (hy pe rfl) hpe')) ?_
       intro _ _
       exact hend
+  -- `if !guard.contains_entry(&path) { return Ok(()); }` in front of the tail
+  have htail2 : Tr (KI P) (do
+      if (← getEntry k).isNone then return () else
+      let d ← dirOf k
+      match (← getEntry d) with
+      | some pe =>
+        let pe' ← liftO (pe.removeChild (baseName k))
+        setEntry d pe'
+      | none => M.pure ()
+      match (← getEntry k) with
+      | some e => if e.file then do let _ ← removeFile k
+      | none => M.pure ()
+      let _ ← removeEntry k
+      return ()) (fun _ => True) := by
+    refine tr_bind (k_getEntry _) ?_
+    intro z _
+    split
+    · exact tr_pure _ trivial
+    · exact htail
   cases x with
-  | none => dsimp only; tr_skip; exact htail
+  | none => dsimp only; tr_skip; exact htail2
   | some e =>
     dsimp only
     split
     · split
-      · tr_skip; exact htail
-      · tr_skip; exact htail
-    · tr_skip; exact htail
+      · tr_skip; exact htail2
+      · tr_skip; exact htail2
+    · tr_skip; exact htail2
 
 theorem removeAllLoop_tr (hP : EntStable P) :
     ∀ (f : Nat) (W : List FsPath), Tr (KI P) (removeAllLoop f W) (fun _ => True) := by
